@@ -4,7 +4,7 @@ id=$1; prop=$2; wt=$3; needs="$4"
 mkdir -p ${VERIF_HOME:-/verif}/seeded/$id
 cp $wt/demo/patch.diff ${VERIF_HOME:-/verif}/seeded/$id/patch.diff 2>/dev/null || git -C $wt diff -- SRC > ${VERIF_HOME:-/verif}/seeded/$id/patch.diff
 cp $wt/demo/demo.c $wt/demo/build_and_run.sh $wt/demo/verify.log ${VERIF_HOME:-/verif}/seeded/$id/ 2>/dev/null
-cp $wt/demo/REPORT.md ${VERIF_HOME:-/verif}/seeded/$id/ 2>/dev/null
+cp $wt/demo/REPORT.md ${VERIF_HOME:-/verif}/seeded/$id/ 2>/dev/null || cp $wt/demo/REPORT.txt ${VERIF_HOME:-/verif}/seeded/$id/REPORT.md 2>/dev/null
 python3 - "$id" "$prop" "$needs" <<'PY'
 import json,sys
 id,prop,needs=sys.argv[1:4]
